@@ -238,6 +238,7 @@ def length_problem(q, opt_len_only=False):
 
 INDEXES = {
     "int": lambda n: pd.Index(np.arange(n, dtype="int64") * 2),
+    "int_dense": lambda n: pd.Index(np.arange(n, dtype="int64")),
     "int_dup": lambda n: pd.Index([i // 3 for i in range(n)], dtype="int64"),
     "float": lambda n: pd.Index([i * 0.5 - 2 for i in range(n)], dtype="float64"),
     "float_dup": lambda n: pd.Index([float(i // 2) for i in range(n)], dtype="float64"),
@@ -285,6 +286,7 @@ DED_OPS = {
     "repart_fewer": lambda x, k: x.repartition(npartitions=max(1, x.npartitions - 2)),
     "repart_more": lambda x, k: x.repartition(npartitions=x.npartitions + 3),
     "repart_one": lambda x, k: x.repartition(npartitions=1),
+    "repart7": lambda x, k: x.repartition(npartitions=7),
     "loc_slice": lambda x, k: x.loc[_loc_bounds(x)[0] : _loc_bounds(x)[1]],
     "loc_from": lambda x, k: x.loc[_loc_bounds(x)[0] :],
     "loc_list": lambda x, k: x.loc[[x.divisions[0], x.divisions[-1]]],
@@ -351,7 +353,7 @@ def ded_cases(ctx):
 
 def build_case(case):
     if case["kind"] == "dedicated":
-        x = ded_frame(case["index"], case["npartitions"])
+        x = ded_frame(case["index"], case["npartitions"], case.get("n", 18))
         return DED_OPS[case["op"]](x, case["index"])
     if case["kind"] == "source":
         x = c11.build(case["source"], case["chain"])
@@ -404,6 +406,20 @@ def run_case(case):
     st = e2e.run_or_err(lambda: plans.stage_exprs(q.expr))
     if st[0] == "err":
         return None  # optimizer failures belong to C01/C19
+    # the collection as the user sees it (logical plan): npartitions, divisions and the computed plan agree
+    lg = e2e.run_or_err(lambda: (q.npartitions, len(q.divisions)))
+    if lg[0] == "ok":
+        np_, nd = lg[1]
+        top = type(q.expr).__name__
+        if nd != np_ + 1:
+            return ({"check": "structure", "node": top, "what": "divisions-length"},
+                    f"logical {top}: npartitions={np_} but {nd} divisions")
+        n_low = st[1][0][1].npartitions
+        from dask_expr.io.io import FusedIO  # noqa: F401  (tune-stage fusion changes counts only in optimised stages)
+
+        if n_low != np_:
+            return ({"check": "structure", "node": top, "what": "npartitions"},
+                    f"logical {top}: npartitions={np_}, its lowered plan has {n_low} partitions")
     for stage, e in st[1]:
         pr = plan_problem(e)
         if pr:
@@ -498,7 +514,24 @@ def _all_cases(ctx, broken):
         idx = list(range(len(rc)))
         ctx.rng.shuffle(idx)
         rc = [rc[i] for i in sorted(idx[:90])]
-    return MUST_RUN + prog + ded + rc
+    steered = []
+    for b in broken:
+        name = str(b.get("family", "")) + str(b.get("theorem", ""))
+        if "selection_divisions" in name or "partitions" in name.lower():
+            steered += [c for c in ded_cases(ctx) if c.get("op", "").startswith(("parts_", "add1_parts", "set_index_parts"))]
+        if "FusedIO" in name or "fused" in name.lower():
+            steered += [c for c in ded_cases(ctx) if c.get("source", "").startswith("read_parquet")]
+        if "Head" in name or "head" in name.lower():
+            steered += [c for c in ded_cases(ctx) if c.get("op", "") in ("head", "head_all", "tail")]
+        if "FromArray" in name:
+            steered += [c for c in ded_cases(ctx) if c.get("source") == "from_array"]
+        if "Concat" in name or "Merge" in name:
+            steered += [c for c in ded_cases(ctx) if c.get("op", "").startswith(("concat", "merge", "join"))]
+        if "Len" in name or "lengths" in name.lower() or "length" in name.lower():
+            steered += rowcount_cases(ctx)
+        if "Repartition" in name or "repart" in name.lower():
+            steered += [c for c in ded_cases(ctx) if c.get("op", "").startswith("repart")]
+    return steered[:400] + MUST_RUN + prog + ded + rc
 
 
 MUST_RUN = [
@@ -508,6 +541,7 @@ MUST_RUN = [
     {"kind": "dedicated", "index": "int", "npartitions": 4, "op": "parts_rep"},                # D12
     {"kind": "dedicated", "index": "int", "npartitions": 4, "op": "repart_more"},              # D14
     {"kind": "dedicated", "index": "int", "npartitions": 2, "op": "repart_more"},
+    {"kind": "dedicated", "index": "int_dense", "npartitions": 3, "op": "repart7", "n": 7},        # D14
     {"kind": "source", "source": "from_array", "chain": "id", "P": [1, 2]},                    # D4
     # one witness per mechanism that failed while this check was developed
     {"kind": "source", "source": "read_parquet_div", "chain": "col_a", "P": [3, 1]},           # FusedIO, reordered selection
